@@ -766,7 +766,7 @@ def stepViews (cx : Ctx) (w : World) (ws : List String) : Option StepOut :=
         let n := (getI r).firstLen
         let fp := tokParts mode
         let base : Option Nat := match fp.headD "" with
-          | "vec" | "slice" | "slicemut" => some 0
+          | "vec" | "slice" | "slicemut" | "tvec" | "tslice" | "tslicemut" => some 0
           | "ref" | "refmut" => if partNat fp 1 < n then some (partNat fp 1) else none
           -- a window [a, b) of the slice / mutable slice, directly (`win…`) or rebuilt with from_raw_parts(_mut) (`rt…`)
           | "wins" | "winsm" | "rts" | "rtsm" => if partNat fp 1 ≤ partNat fp 2 ∧ partNat fp 2 ≤ n then some (partNat fp 1) else none
